@@ -17,7 +17,7 @@ func init() {
 	register(&Property{
 		ID:          "C11",
 		Engines:     []string{"typestate", "cfg"},
-		Explanation: "Pooled-buffer ownership as a typestate property of every function of nbio, nbhttp and nbhttp/websocket: after Free (or after being consumed by Append/AppendString/Realloc) a buffer, every view of its contents and every field or local that still refers to it must not be used, stored or released again on any path; a field whose buffer was released is overwritten before the function returns; buffers released by a closure handed to an executor are released by the caller exactly on the !ok edge (O1-O5, one flow-sensitive analysis); functions touching Parser.bytesCached test the terminal state first under Parser.mux, which justifies the single frozen exception (O6); each write-queue entry is released on flush's completion edge before the pop or by teardown's loop, which then drops the list (O7); views handed to body/parse sinks are only read or copied (O8). No view of a released buffer or queue entry is used after the release (O10).",
+		Explanation: "Pooled-buffer ownership as a typestate property of every function of nbio, nbhttp and nbhttp/websocket: after Free (or after being consumed by Append/AppendString/Realloc) a buffer, every view of its contents and every field or local that still refers to it must not be used, stored or released again on any path; a field whose buffer was released is overwritten before the function returns; buffers released by a closure handed to an executor are released by the caller exactly on the !ok edge (O1-O5, one flow-sensitive analysis); functions touching Parser.bytesCached test the terminal state first under Parser.mux, which justifies the single frozen exception (O6); each write-queue entry is released on flush's completion edge before the pop or by teardown's loop, which then drops the list (O7); views handed to body/parse sinks are only read or copied (O8). No view of a released buffer or queue entry is used after the release (O10). Every release of a request passes RetainHTTPBody (O11).",
 		NotCovered:  "cross-goroutine use after release that needs a schedule (a handler retaining Request.Body buffers after it returned), user allocators, heap aliasing beyond struct-field places keyed by type and local cells",
 		Run:         runC11,
 	})
